@@ -59,7 +59,8 @@ def gen_ops(rng, k, n, allow_fail=False, allow_close=True, weights=None):
     fail = [0] * k
     closed = False
     w = {"a": 20, "r": 14, "u": 8, "s": 10, "g": 6, "G": 2, "i": 8, "t": 3, "o": 2, "x": 2, "e": 2, "n": 3,
-         "m": 2, "k": 4, "R": 2, "pq": 3, "c": 0.6 if allow_close else 0, "f": 6 if allow_fail else 0}
+         "m": 2, "k": 4, "R": 2, "pq": 3, "c": 0.6 if allow_close else 0, "f": 6 if allow_fail else 0,
+         "T": 3 if k > 1 else 0}
     if weights:
         w.update(weights)
     keys = list(w)
@@ -81,6 +82,10 @@ def gen_ops(rng, k, n, allow_fail=False, allow_close=True, weights=None):
             ops.append("%s%d" % (o, rng.randrange(k)))
         elif o == "t":
             ops.append("t%d" % rng.randrange(k + 1))
+        elif o == "T":
+            if closed:
+                continue
+            ops.append("T%d" % rng.randrange(k))
         elif o == "k":
             if any(fail):
                 continue
@@ -192,6 +197,39 @@ def case_race(rng):
     ops += ["D%d" % i, trig, "f%d0" % i, "u1%d" % i]
     ops += rng.choice([["G", "i"], ["n", "m"], ["a2%d" % i], []]) + ["u1%d" % i]
     return "race %d %s" % (k, " ".join(ops + epilogue(k)))
+
+
+def case_ttl(rng):
+    """database.SelectSegments under a TTL that some still-present segments have outlived (retention
+    has not run yet): held and not held, open and idle-closed, reopen true/false; the filter must give
+    back every pin it drops."""
+    k = rng.choice([2, 3, 3, 4])
+    pre, _ = gen_ops(rng, k, rng.randrange(0, 5), allow_close=False, weights={"t": 0, "o": 0, "x": 0, "T": 0})
+    ops = list(pre)
+    j = rng.randrange(1, k)
+    for i in range(k):            # holders on a random subset, before the TTL shrinks
+        if rng.random() < 0.6:
+            ops.append("a2%d" % i)
+    if rng.random() < 0.4:
+        ops += ["g%d" % rng.randrange(k), "i"]
+    ops.append("T%d" % j)
+    for _ in range(rng.randrange(1, 4)):
+        lo, hi = _range(rng, k)
+        if rng.random() < 0.5:
+            lo = 0
+        c = rng.randrange(2)
+        if rng.random() < 0.55:
+            ops += ["p%d%d%d" % (c, lo, hi), "q%d" % c]
+        else:
+            ops += ["s%d%d%d" % (c, lo, hi), "u%d%d" % (c, hi)]
+            if rng.random() < 0.5:
+                ops.append("R")
+                for i in range(k):
+                    if rng.random() < 0.5:
+                        ops.append("a2%d" % i)
+    if rng.random() < 0.3:
+        ops += ["T0", "s0%d%d" % (0, k - 1)]
+    return "ttl %d %s" % (k, " ".join(ops + epilogue(k)))
 
 
 def case_stress(rng, iters):
@@ -365,7 +403,7 @@ class C14(vlib.Spec):
         "dir_never_returns", "delete_at_last_release", "delete_at_last_release_partial", "last_release_commits", "last_release_deletes",
         "no_resurrection", "acquire_after_delete_fails", "incRef_after_delete",
         "incRef_fail_no_count", "decRef_always_releases", "all_released_rc_zero", "unreferenced_reclaimable", "no_leak",
-        "selectLoop_no_leak", "segmentsLoop_no_leak",
+        "selectLoop_no_leak", "filterLoop_no_leak", "segmentsLoop_no_leak",
         "idle_reopen_transparent", "closeIfIdle_steps_keep", "inv_reachable_multi",
         "legacy_use_after_close", "legacySteal_reach", "legacySteal_inv", "legacy_segments_leak",
         "demoDeleted_reachable"]] + [
@@ -394,15 +432,15 @@ class C14(vlib.Spec):
     rule = ("op sequences over 1-4 daily segments and 3 clients on a real TSDB (incRef/DecRef/SelectSegments/stats peek/"
             "idle reclaim/retention/forced delete/DeleteExpired/snapshot/metrics/rotation tick/injected reopen failure/"
             "db close), each followed by 'all release; idle-close; retention'; directed streams for the two caller "
-            "defects (stats-peek steal, tick leak) and for a second goroutine acquiring during TSTable.Close; "
+            "defects (stats-peek steal, tick leak), database.SelectSegments under a TTL that present segments have outlived and for a second goroutine acquiring during TSTable.Close; "
             "concurrent stress; non-trivial = distinct case")
 
     def cases(self, rng, n):
         out = []
         stress_iters = 800 if n <= 5000 else 4000
         n_stress = 4 if n <= 5000 else 18
-        mix = [(case_life, 0.38), (case_fail, 0.18), (case_shut, 0.08), (case_steal, 0.1), (case_leak, 0.08),
-               (case_hook, 0.1), (case_race, 0.08)]
+        mix = [(case_life, 0.34), (case_fail, 0.16), (case_shut, 0.07), (case_steal, 0.09), (case_leak, 0.07),
+               (case_hook, 0.1), (case_race, 0.07), (case_ttl, 0.1)]
         for fn, share in mix:
             for _ in range(int(n * share)):
                 out.append(fn(rng))
